@@ -177,13 +177,14 @@ class Model:
             self.modules[m] = Module(m, path, src)
         # tuple records (namedtuple / NamedTuple) are written as the plain tuples they are (records.py)
         from .records import detuple, decontainer, dewalrus, deconst, deaccessor, deannotate
-        n_ann = deannotate([m.tree for m in self.modules.values()])
         n_acc = deaccessor([m.tree for m in self.modules.values()])
         n_walrus = dewalrus([m.tree for m in self.modules.values()])
         n_const = deconst({nm_: m.tree for nm_, m in self.modules.items()})
         self.record_stats = detuple([m.tree for m in self.modules.values()])
         # ... and `for x in self` as the loop over the attribute the class's __iter__ hands out
         self.record_stats['container_rewrites'] = decontainer([m.tree for m in self.modules.values()])
+        # (type hints are dropped last: the record types are inferred from them)
+        n_ann = deannotate([m.tree for m in self.modules.values()])
         self.record_stats['walrus_hoisted'] = n_walrus
         self.record_stats['int_constants_inlined'] = n_const
         self.record_stats['wrapper_properties_dropped'] = n_acc
